@@ -101,9 +101,10 @@ def scn_weibull(K, batch, with_inv, with_mu):
     return scn
 
 
-def scn_sequence(kind, order):
+def scn_sequence(kind, order, with_inv=True, with_mu=True, update=("inv", "mu"), K=3):
     """the postconditions hold for the CURRENT parameter values after an update through the public setter, whatever the
-    order in which rates() and probabilities() are requested (order: string over {r,p})"""
+    order in which rates() and probabilities() are requested (order: string over {r,p}), for every combination of optional
+    parameters; the returned rates / probabilities are those of a fresh model at the current values"""
     def scn(mk):
         from torchtree.core.parameter import Parameter
         from torchtree.evolution.site_model import InvariantSiteModel, WeibullSiteModel
@@ -111,21 +112,42 @@ def scn_sequence(kind, order):
         inv2 = mk.real("inv2", (1,), lo=0, hi=1, lo_incl=True)
         mu1 = mk.real("mu1", (1,), lo=0)
         mu2 = mk.real("mu2", (1,), lo=0)
-        pinv, pmu = Parameter("inv", inv1), Parameter("mu", mu1)
-        if kind == "invariant":
-            m = InvariantSiteModel("sm", pinv, pmu)
-        else:
-            shape = mk.real("shape", (1,), lo=0)
-            m = WeibullSiteModel("sm", Parameter("shape", shape), 3, pinv, pmu)
+        pinv = Parameter("inv", inv1) if (with_inv or kind == "invariant") else None
+        pmu = Parameter("mu", mu1) if with_mu else None
+
+        def build(pi_, pm_, ps_):
+            if kind == "invariant":
+                return InvariantSiteModel("sm", pi_, pm_)
+            return WeibullSiteModel("sm", ps_, K, pi_, pm_)
+        pshape = None
+        if kind != "invariant":
+            shape1 = mk.real("shape", (1,), lo=0)
+            shape2 = mk.real("shape2", (1,), lo=0)
+            pshape = Parameter("shape", shape1)
+        m = build(pinv, pmu, pshape)
         m.rates(), m.probabilities()
-        pinv.tensor = inv2
-        pmu.tensor = mu2
+        cur_inv, cur_mu = (inv1 if pinv is not None else None), (mu1 if pmu is not None else None)
+        cur_shape = None if pshape is None else shape1
+        if "inv" in update and pinv is not None:
+            pinv.tensor = inv2
+            cur_inv = inv2
+        if "mu" in update and pmu is not None:
+            pmu.tensor = mu2
+            cur_mu = mu2
+        if "shape" in update and pshape is not None:
+            pshape.tensor = shape2
+            cur_shape = shape2
         got = {}
         for ch in order:
             got[ch] = m.rates() if ch == "r" else m.probabilities()
         rates = got.get("r", m.rates())
         probs = got.get("p", m.probabilities())
-        return _claims(mk, rates, probs, mu2, inv2)
+        fresh = build(None if cur_inv is None else Parameter("inv_f", cur_inv), None if cur_mu is None else Parameter("mu_f", cur_mu),
+                      None if cur_shape is None else Parameter("shape_f", cur_shape))
+        cl = _claims(mk, rates, probs, cur_mu, cur_inv)
+        cl.append(("eq", "rates_are_those_of_a_fresh_model_at_the_current_values", mk.lift(rates), mk.lift(fresh.rates())))
+        cl.append(("eq", "probabilities_are_those_of_a_fresh_model_at_the_current_values", mk.lift(probs), mk.lift(fresh.probabilities())))
+        return cl
     return scn
 
 
@@ -144,6 +166,20 @@ def obligations(tier, seed):
     for kind in ("invariant", "weibull"):
         for order in ("rp", "pr", "ppr", "prp"):
             add("C05.sequence.%s[update then %s]" % (kind, order), "scn_sequence", (kind, order), "postconditions hold for the current values after an update, in any request order")
+    # every combination of optional parameters x which parameter is updated x request order (r first / p first / only one of them)
+    for with_inv in (False, True):
+        for with_mu in (False, True):
+            ups = [u for u in ("shape", "inv", "mu") if u == "shape" or (u == "inv" and with_inv) or (u == "mu" and with_mu)]
+            for up in [(u,) for u in ups] + ([tuple(ups)] if len(ups) > 1 else []):
+                for order in ("rp", "pr", "r", "p"):
+                    for K_ in ((1, 3) if tier == "quick" else (1, 2, 3, 4)):
+                        add("C05.sequence.weibull[K=%d,inv=%s,mu=%s,update %s then %s]" % (K_, with_inv, with_mu, "+".join(up), order), "scn_sequence",
+                            ("weibull", order, with_inv, with_mu, up, K_), "postconditions hold for the current values after an update, in any request order")
+    for with_mu in (False, True):
+        for up in (("inv",),) + ((("mu",), ("inv", "mu")) if with_mu else ()):
+            for order in ("rp", "pr", "r", "p"):
+                add("C05.sequence.invariant[mu=%s,update %s then %s]" % (with_mu, "+".join(up), order), "scn_sequence",
+                    ("invariant", order, True, with_mu, up), "postconditions hold for the current values after an update, in any request order")
     Ks = [1, 2, 3, 4, 5, 6, 16] if tier == "quick" else list(range(1, 17))
     for K in Ks:
         for b in batches:
